@@ -29,6 +29,29 @@ impl Y {
     }
 }
 
+thread_local! {
+    /// result vectors produced by the last call (so that callers can go on using the very objects
+    /// the call returned, not copies rebuilt from their bits)
+    static STASH: std::cell::RefCell<Vec<AnyBv>> = std::cell::RefCell::new(Vec::new());
+}
+fn stash<B: IntoAny>(v: B) {
+    STASH.with(|s| s.borrow_mut().push(v.into_any()));
+}
+pub fn take_stash() -> Vec<AnyBv> {
+    STASH.with(|s| std::mem::take(&mut *s.borrow_mut()))
+}
+fn vec_out<B: BitVector + IntoAny>(v: B) -> Out {
+    let b = bits_of(&v);
+    stash(v);
+    Out::Vec(b)
+}
+fn pair_out<B: BitVector + IntoAny>(a: B, b: B) -> Out {
+    let (ba, bb) = (bits_of(&a), bits_of(&b));
+    stash(a);
+    stash(b);
+    Out::Pair(ba, bb)
+}
+
 fn cerr(e: ConvertionError) -> Out {
     match e {
         ConvertionError::NotEnoughCapacity => Out::ErrCap,
@@ -313,7 +336,7 @@ macro_rules! impl_pops {
             }
             fn p_div_rem(&self, y: &$Y) -> Out {
                 let (q, r) = self.div_rem::<$Y>(y);
-                Out::Pair(bits_of(&q), bits_of(&r))
+                pair_out(q, r)
             }
         }
     };
@@ -455,7 +478,7 @@ fn unary<B: VOps>(v: &mut B, y: &Y, op: &str, f: &str, a: &Args) -> Out {
             Ok(r) => Out::Vec(int_bits(r, a.ity.unwrap().width())),
             Err(e) => cerr(e),
         },
-        "new_inner" => Out::Vec(bits_of(&v.v_roundtrip())),
+        "new_inner" => vec_out(v.v_roundtrip()),
         "iter_collect" => {
             if a.byval {
                 Out::Vec(v.v_ref_iter_collect())
@@ -463,7 +486,7 @@ fn unary<B: VOps>(v: &mut B, y: &Y, op: &str, f: &str, a: &Args) -> Out {
                 Out::Vec(v.iter().map(ub).collect())
             }
         }
-        "clone" => Out::Vec(bits_of(&v.clone())),
+        "clone" => vec_out(v.clone()),
         "cmp" => match y {
             // Ord::cmp exists only within one type; handled by the caller for vectors of the same kind
             _ => panic!("harness: cmp handled in exec_inner"),
@@ -494,12 +517,12 @@ fn unary<B: VOps>(v: &mut B, y: &Y, op: &str, f: &str, a: &Args) -> Out {
             v.v_extend(a.bits.as_ref().unwrap(), a.lie);
             Out::Unit
         }
-        "split_off" => Out::Vec(bits_of(&v.split_off(i))),
+        "split_off" => vec_out(v.split_off(i)),
         "split" => {
             let (hi, lo) = v.clone().split(i);
-            Out::Pair(bits_of(&hi), bits_of(&lo))
+            pair_out(hi, lo)
         }
-        "copy_range" => Out::Vec(bits_of(&v.copy_range(i..j))),
+        "copy_range" => vec_out(v.copy_range(i..j)),
         "shl_in" => Out::Bit(ub(v.shl_in(b))),
         "shr_in" => Out::Bit(ub(v.shr_in(b))),
         "rotl" => {
@@ -518,14 +541,14 @@ fn unary<B: VOps>(v: &mut B, y: &Y, op: &str, f: &str, a: &Args) -> Out {
             v.v_shrink();
             Out::Unit
         }
-        "not" => Out::Vec(bits_of(&v.v_not(f == "r"))),
+        "not" => vec_out(v.v_not(f == "r")),
         "shl" | "shr" => match v.v_shift(op == "shl", a.ity.unwrap(), n, f) {
-            Some(r) => Out::Vec(bits_of(&r)),
+            Some(r) => vec_out(r),
             None => Out::Unit,
         },
         _ if is_binop(op) => match y {
             Y::Int(t, val) => match v.v_int_binop(op, *t, *val, f) {
-                Some(r) => Out::Vec(bits_of(&r)),
+                Some(r) => vec_out(r),
                 None => Out::Unit,
             },
             _ => panic!("harness: binop without operand"),
@@ -555,7 +578,7 @@ where
         }
         "div_rem" => x.p_div_rem(y),
         _ if is_binop(op) => match x.p_binop(y, op, f) {
-            Some(r) => Out::Vec(bits_of(&r)),
+            Some(r) => vec_out(r),
             None => Out::Unit,
         },
         _ if is_cmp(op) => x.p_cmp(y, op),
@@ -566,10 +589,10 @@ where
 fn convert_to<X, Yt>(x: &X, byval: bool) -> Out
 where
     X: POps<Yt>,
-    Yt: BitVector,
+    Yt: BitVector + IntoAny,
 {
     match x.p_convert(byval) {
-        Ok(v) => Out::Vec(bits_of(&v)),
+        Ok(v) => vec_out(v),
         Err(e) => {
             if e.contains("NotEnoughCapacity") {
                 Out::ErrCap
@@ -594,6 +617,23 @@ fn ord_cmp_same(x: &AnyBv, y: &AnyBv) -> Out {
             match (x, y) {
                 $( (AnyBv::$K(a), AnyBv::$K(b)) => Out::Ord(Ord::cmp(a, b) as i8), )+
                 _ => panic!("harness: Ord::cmp needs operands of one type"),
+            }
+        };
+    }
+    same!(F8x1, F8x2, F8x3, F16x1, F16x2, F32x1, F32x2, F64x1, F64x2, F64x3, F128x1, F128x2, Fux1, Fux2, D, A)
+}
+
+/// HashSet membership within one type: a set holding x is asked for y
+fn hs_contains_same(x: &AnyBv, y: &AnyBv) -> Out {
+    macro_rules! same {
+        ($($K:ident),+) => {
+            match (x, y) {
+                $( (AnyBv::$K(a), AnyBv::$K(b)) => {
+                    let mut set = std::collections::HashSet::new();
+                    set.insert(a.clone());
+                    Out::Bool(set.contains(b))
+                } )+
+                _ => panic!("harness: hs_contains needs operands of one type"),
             }
         };
     }
@@ -625,6 +665,9 @@ fn exec_inner(x: &mut AnyBv, y: &Y, op: &str, f: &str, a: &Args) -> Out {
             if op == "cmp" {
                 return ord_cmp_same(x, yv);
             }
+            if op == "hs_contains" {
+                return hs_contains_same(x, yv);
+            }
             with_any!(x, xv => with_any!(yv, yy => pair(xv, yy, op, f, a)))
         }
         _ => with_any!(x, xv => unary(xv, y, op, f, a)),
@@ -633,6 +676,7 @@ fn exec_inner(x: &mut AnyBv, y: &Y, op: &str, f: &str, a: &Args) -> Out {
 
 /// Execute one call on the live vector `x`.
 pub fn exec(x: &mut AnyBv, y: &Y, op: &str, f: &str, a: &Args) -> Out {
+    take_stash();
     match catch_unwind(AssertUnwindSafe(|| exec_inner(x, y, op, f, a))) {
         Ok(o) => o,
         Err(e) => {
@@ -651,6 +695,15 @@ pub fn exec(x: &mut AnyBv, y: &Y, op: &str, f: &str, a: &Args) -> Out {
             Out::Panic
         }
     }
+}
+
+/// Like exec, but leaves the result stash of the enclosing call alone.
+pub fn exec_keep(x: &mut AnyBv, y: &Y, op: &str, f: &str, a: &Args) -> Out {
+    let saved = take_stash();
+    let o = exec(x, y, op, f, a);
+    take_stash();
+    STASH.with(|s| *s.borrow_mut() = saved);
+    o
 }
 
 /// Observed state of a vector after a call; reading it back may itself panic if the call
